@@ -2,13 +2,17 @@
 
 Decided (clang AST of plugin/actuator/pid.cc, plugin/elasticity/cable.cc, elasticity.cc; anchors are the State /
 PidConfig field names, mju_clip, and the mjpPlugin callback slots):
-  R-MUSTPASS    in every Pid method that computes the error integral (`X = ... state.integral ...`), on every path on
-                which config.i_max may hold a value, X passes through `X = mju_clip(X, -*i_max, *i_max)` before any
-                use; in every Pid method that reads State.previous_ctrl, the returned setpoint passes through
+  R-MUSTPASS    in every Pid method that computes the error integral (a value computed from State.integral), on every
+                path on which config.i_max may hold a value, that value passes through
+                `mju_clip(v, -*i_max, *i_max)` before any use; in every Pid method that reads State.previous_ctrl, the
+                returned setpoint passes through
                 `mju_clip(v, previous_ctrl - *slew_max*timestep, previous_ctrl + *slew_max*timestep)` on every path
-                on which slew_max has a value and previous_ctrl_exists.
-  R-SIBLING     the integral expression, its guards and the clip are identical (modulo local names) in all those
-                methods (ActDot / Compute).
+                on which slew_max has a value and previous_ctrl_exists.  Decided on the canonical view of each method
+                (cxx3.View: free helper functions of the TU and lambdas are analysed inside the method, reference
+                parameters are aliases), the integral is followed as a value through copies, `?:` and helper results;
+                a value handed to plugin code that cannot be followed is ANALYSIS-ERROR.
+  R-SIBLING     the integral expression, its complete guard (nested view: early exits folded into if/else) and the
+                clip are identical (modulo local names) in all those methods (ActDot / Compute).
   R-TABLE       the state-slot layout agrees between the slot counter (ActDim), the reader (GetState) and the writer
                 of the derivative (ActDot): same sequence of configuration guards, one index step per slot, and the
                 slot GetState stores into State.integral is the one ActDot derives from the integral.
@@ -93,6 +97,7 @@ class TU:
         self.index = cxx3.FuncIndex(repo).add_ir(self.ir)
         self.resolver = cxx3.Resolver(self.index, None)
         self.unit = cir.Unit(self.ir)
+        self._views = {}
 
     def fns(self, qual=None):
         return [f for f in self.index.fns if f.file == self.rel and (qual is None or f.qual == qual)]
@@ -102,6 +107,15 @@ class TU:
         if not r:
             raise AnalysisError(f"{qual}::{name} not found in {self.rel} (anchor moved)")
         return r[0]
+
+    def view(self, f):
+        """Canonical view of a function of this TU: free helper functions of the TU and lambdas are analysed inside it
+        (methods stay calls: the rules find them by their role and analyse them on their own)."""
+        v = self._views.get(id(f.node))
+        if v is None:
+            v = cxx3.View(f.node, [g.node for g in self.fns()], self.rel, pred=lambda h: h.get("k") == "FunctionDecl")
+            self._views[id(f.node)] = v
+        return v
 
 
 def _is_state_member(n, name):
@@ -160,77 +174,194 @@ def _is_imax_deref(n):
 
 # ---------------------------------------------------------------------------------------------------------------
 # R-MUSTPASS: integral clip
+#
+# The rules run on the canonical view of each Pid method (TU.view): free helper functions of the TU and lambdas are
+# analysed inside the method, so a clip that sits in a helper the integral flows through is the method's clip.  The
+# integral is followed as a *value* (copies between locals keep its status), not as one named variable.
+
+
+def _imax_test(cond):
+    """True / False if `cond` is (the negation of) a has-value test of config.i_max, else None."""
+    s = cir.strip(cond)
+    pol = True
+    while s is not None and s.get("k") == "UnaryOperator" and s.get("op") == "!":
+        pol = not pol
+        s = cir.strip(cir.kids(s)[0])
+    ch = cxx3.optional_test(s) if s is not None else None
+    if ch and ch[-1] == CFG_IMAX:
+        return pol
+    return None
+
+
+def _local_target(node):
+    """(decl id, rhs) if `node` defines a local: VarDecl with initialiser or `v = rhs`; else None."""
+    k = node.get("k")
+    if k == "VarDecl" and node.get("id"):
+        init = [c for c in cir.kids(node) if c is not None and not (c.get("k") or "").endswith("Attr")]
+        return (node["id"], init[-1]) if init else None
+    if k == "BinaryOperator" and node.get("op") == "=":
+        l = cir.strip(cir.kids(node)[0])
+        if l is not None and l.get("k") == "DeclRefExpr" and not _is_reference(l):
+            return (l.get("ref") or {}).get("id"), cir.kids(node)[1]
+    return None
+
+
+def _is_reference(declref):
+    """The variable named is a reference: assigning to it stores into whatever it is bound to."""
+    return ((declref.get("ref") or {}).get("t") or "").rstrip().endswith("&")
+
+
+def _prev_ids(fn):
+    """Locals that hold a plain copy of State.integral (the stored value, e.g. a helper parameter bound to it)."""
+    out = set()
+    for n in cxx3.walk_outer(fn):
+        t = _local_target(n)
+        if t and _is_state_member(cir.strip(t[1]), STATE_INTEGRAL):
+            out.add(t[0])
+    return out
+
+
+def _reads_integral(e, prev):
+    for x in cir.walk(e):
+        if _is_state_member(x, STATE_INTEGRAL):
+            return True
+        if x.get("k") == "DeclRefExpr" and (x.get("ref") or {}).get("id") in prev:
+            return True
+    return False
 
 
 class _ClipRule(cxx3.XRule):
-    """state: (phase, imax)  phase: init | raw | clipped ; imax: None | True | False"""
+    """state: (vals, imax).  vals: frozenset of (decl id, status) with status 'prev' (copy of State.integral), 'raw'
+    (computed from it, not clipped to ±i_max), 'clipped'; imax: None | True | False (does config.i_max hold a value)."""
 
     use_kinds = frozenset({"DeclRefExpr"})
 
-    def __init__(self, var_id, lhs, clip_arg_ids, helpers=()):
-        self.var = var_id
-        self.lhs = lhs
-        self.clip_arg_ids = clip_arg_ids
+    def __init__(self, fn, helpers=(), opaque_args=()):
         self.helpers = helpers          # names of TU functions that return their argument clipped to ±i_max
+        self.opaque_args = opaque_args  # id()s of DeclRefExpr arguments of TU functions that could not be followed
         self.bad_bounds = []
         self.clips = 0
+        self.exempt = set()             # id()s of DeclRefExpr nodes that are not uses of the value
+        for n in cxx3.walk_outer(fn):
+            k = n.get("k")
+            if k == "BinaryOperator" and n.get("op") == "=":
+                l = cir.strip(cir.kids(n)[0])
+                if l is not None and l.get("k") == "DeclRefExpr" and not _is_reference(l):
+                    self.exempt.add(id(l))              # a pure write
+                    self._copy_sources(cir.kids(n)[1])
+            elif k == "VarDecl":
+                t = _local_target(n)
+                if t:
+                    self._copy_sources(t[1])
+            elif cir.is_call(n) and (cir.callee(n) == CLIP or cir.callee(n) in helpers):
+                a = cir.args(n)
+                for x in (a[:1] if cir.callee(n) == CLIP else a):
+                    x = cir.strip(x)
+                    if x is not None and x.get("k") == "DeclRefExpr":
+                        self.exempt.add(id(x))          # the value handed to the clip
+
+    def _copy_sources(self, rhs):
+        s = cir.strip(rhs)
+        if s is None:
+            return
+        if s.get("k") == "DeclRefExpr":
+            self.exempt.add(id(s))                      # `a = b`: the value moves, it is not consumed
+        elif s.get("k") == "ConditionalOperator":
+            self._copy_sources(cir.kids(s)[1])
+            self._copy_sources(cir.kids(s)[2])
 
     def initial(self, fn):
-        return ("init", None)
+        return (frozenset(), None)
 
-    def _rhs(self, st, rhs, node, ctx):
-        if rhs is None:
-            return st
-        b = _is_clip_of(rhs, self.var)
-        if b is not None:
-            lo, hi = b
-            nlo = _neg_of(lo)
-            if nlo is not None and _is_imax_deref(nlo) and _is_imax_deref(hi):
+    def _status(self, e, vals, imax, node):
+        s = cir.strip(e)
+        if s is None:
+            return None
+        k = s.get("k")
+        if k == "ConditionalOperator":
+            c, a, b = cir.kids(s)
+            pol = _imax_test(c)
+            if pol is not None and imax is not None:
+                return self._status(a if imax == pol else b, vals, imax, node)
+            sa, sb = self._status(a, vals, imax, node), self._status(b, vals, imax, node)
+            if sa == sb:
+                return sa
+            return "raw" if "raw" in (sa, sb) else None
+        if cir.is_call(s) and cir.callee(s) == CLIP and len(cir.args(s)) == 3:
+            x, lo, hi = cir.args(s)
+            inner = self._status(x, vals, imax, node)
+            if inner in ("raw", "clipped"):
+                nlo = _neg_of(lo)
+                if nlo is not None and _is_imax_deref(nlo) and _is_imax_deref(hi):
+                    self.clips += 1
+                    return "clipped"
+                self.bad_bounds.append((node.get("line"), cir.text(s)))
+                return inner
+            return None
+        if cir.is_call(s) and cir.callee(s) in self.helpers:
+            if any(self._status(a, vals, imax, node) in ("raw", "clipped") for a in cir.args(s)):
                 self.clips += 1
-                return ("clipped", st[1])
-            self.bad_bounds.append((node.get("line"), cir.text(rhs)))
-            return st
-        r = cir.strip(rhs)
-        if r is not None and cir.is_call(r) and cir.callee(r) in self.helpers and \
-                any(_var_id(a) == self.var for a in cir.args(r)):
-            self.clips += 1
-            return ("clipped", st[1])
-        if _reads_state(rhs, STATE_INTEGRAL):
-            return ("raw", st[1])
-        if any(_var_id(x) == self.var for x in cir.walk(rhs) if x.get("k") == "DeclRefExpr"):
-            return st       # X = f(X): keeps its status
-        return ("init", st[1])
+                return "clipped"
+            return None
+        if k == "DeclRefExpr":
+            return vals.get((s.get("ref") or {}).get("id"))
+        if _is_state_member(s, STATE_INTEGRAL):
+            return "prev"
+        for x in cir.walk(s):
+            if _is_state_member(x, STATE_INTEGRAL):
+                return "raw"
+            if x.get("k") == "DeclRefExpr" and vals.get((x.get("ref") or {}).get("id")) == "prev":
+                return "raw"
+        return None
 
     def assign(self, st, node, ctx):
-        k = node.get("k")
-        if k == "VarDecl":
-            if node.get("id") != self.var:
+        t = _local_target(node)
+        if t is None:
+            if node.get("k") == "CompoundAssignOperator":
+                vid = _var_id(cir.kids(node)[0])
+                vals = dict(st[0])
+                if vid in vals and self._status(cir.kids(node)[1], vals, st[1], node) in ("raw", "prev"):
+                    vals[vid] = "raw"
+                    return (frozenset(vals.items()), st[1])
+            return st
+        vid, rhs = t
+        vals = dict(st[0])
+        s = self._status(rhs, vals, st[1], node)
+        if s is None:
+            if vid not in vals:
                 return st
-            init = [c for c in cir.kids(node) if c is not None]
-            return self._rhs(st, init[-1] if init else None, node, ctx)
-        if k == "BinaryOperator" and node.get("op") == "=" and _var_id(cir.kids(node)[0]) == self.var:
-            return self._rhs(st, cir.kids(node)[1], node, ctx)
-        return st
+            del vals[vid]
+        else:
+            vals[vid] = s
+        return (frozenset(vals.items()), st[1])
 
     def branch(self, st, cond, taken, ctx):
-        ch = cxx3.optional_test(cond)
-        if ch and ch[-1] == CFG_IMAX:
-            if st[1] is not None and st[1] != taken:
+        pol = _imax_test(cond)
+        if pol is not None:
+            has = taken if pol else (not taken)
+            if st[1] is not None and st[1] != has:
                 return None
-            return (st[0], taken)
+            return (st[0], has)
         return st
 
     def use(self, st, node, ctx):
-        if (node.get("ref") or {}).get("id") != self.var or id(node) in self.lhs or id(node) in self.clip_arg_ids:
+        if id(node) in self.exempt or not st[0] or st[1] is False:
             return st
-        if st[0] == "raw" and st[1] is not False:
-            ctx.report(node, "the error integral is used without having been clipped to ±i_max on a path where i_max "
-                             "may hold a value")
+        vid = (node.get("ref") or {}).get("id")
+        for v, status in st[0]:
+            if v == vid and status == "raw":
+                if id(node) in self.opaque_args:
+                    raise AnalysisError(f"{ctx.fn.get('n')}: the unclipped error integral is handed to a function of the "
+                                        f"plugin (line {node.get('line')}) that could not be analysed inside its caller — "
+                                        f"cannot decide whether it is clipped there")
+                ctx.report(node, "the error integral is used without having been clipped to ±i_max on a path where i_max "
+                                 "may hold a value")
         return st
 
 
 class _HelperRule(cxx3.XRule):
-    """Is this function `x -> i_max ? mju_clip(x, -*i_max, *i_max) : x` on all paths?  state: i_max U(nknown)|T|F."""
+    """Is this function `x -> i_max ? mju_clip(x, -*i_max, *i_max) : x` on all paths?  state: i_max U(nknown)|T|F.
+    (Summary for helpers that are left as calls, e.g. methods; free helpers are analysed inside their callers.)"""
 
     def __init__(self, param_id):
         self.p = param_id
@@ -246,9 +377,9 @@ class _HelperRule(cxx3.XRule):
         return st
 
     def branch(self, st, cond, taken, ctx):
-        ch = cxx3.optional_test(cond)
-        if ch and ch[-1] == CFG_IMAX:
-            return "T" if taken else "F"
+        pol = _imax_test(cond)
+        if pol is not None:
+            return "T" if (taken if pol else not taken) else "F"
         return st
 
     def ret(self, st, node, ctx):
@@ -287,19 +418,23 @@ def _clip_helpers(pid):
     return out
 
 
-def _integral_sites(fn):
-    """[(var id, var name, rhs node, defining node)] for `X = ... state.integral ...` in a function."""
+def _integral_sites(fn, prev):
+    """[(var id, var name, rhs node, defining node)] for `X = ... state.integral ...` (more than a plain copy of the stored
+    value) in the executed part of a view."""
     out = []
-    for n in cir.walk(fn):
-        k = n.get("k")
-        if k == "VarDecl" and n.get("id"):
-            init = [c for c in cir.kids(n) if c is not None]
-            if init and _reads_state(init[-1], STATE_INTEGRAL) and "State" not in (n.get("t") or ""):
-                out.append((n["id"], n.get("n"), init[-1], n))
-        elif k == "BinaryOperator" and n.get("op") == "=":
-            l = cir.strip(cir.kids(n)[0])
-            if l is not None and l.get("k") == "DeclRefExpr" and _reads_state(cir.kids(n)[1], STATE_INTEGRAL):
-                out.append(((l.get("ref") or {}).get("id"), (l.get("ref") or {}).get("n"), cir.kids(n)[1], n))
+    for n in cxx3.walk_outer(fn):
+        t = _local_target(n)
+        if not t:
+            continue
+        vid, rhs = t
+        if n.get("k") == "VarDecl" and "State" in (n.get("t") or ""):
+            continue
+        s = cir.strip(rhs)
+        if _is_state_member(s, STATE_INTEGRAL) or (s is not None and s.get("k") == "DeclRefExpr"):
+            continue
+        if _reads_integral(rhs, prev):
+            name = n.get("n") if n.get("k") == "VarDecl" else (cir.strip(cir.kids(n)[0]).get("ref") or {}).get("n")
+            out.append((vid, name, rhs, n))
     return out
 
 
@@ -339,6 +474,44 @@ def _guards_of(fn, target):
     return path[0] if path else []
 
 
+def _is_indirect_call(n):
+    """A call through a callable object, function pointer or std::function (its target is not known statically)."""
+    if not cir.is_call(n) or n.get("lam"):
+        return False
+    info = cxx3.callee_info(n)
+    if info is None or info[0] == "indirect":
+        return True
+    return n.get("k") == "CXXOperatorCallExpr" and info[1] == "operator()"
+
+
+def _integral_family(fn, seeds):
+    """Locals the integral value moves through: the site variables and what is copied / clipped from them."""
+    fam = set(seeds)
+    changed = True
+    while changed:
+        changed = False
+        for n in cxx3.walk_outer(fn):
+            t = _local_target(n)
+            if not t or t[0] in fam:
+                continue
+
+            def src(e):
+                s = cir.strip(e)
+                if s is None:
+                    return False
+                if s.get("k") == "DeclRefExpr":
+                    return (s.get("ref") or {}).get("id") in fam
+                if s.get("k") == "ConditionalOperator":
+                    return src(cir.kids(s)[1]) or src(cir.kids(s)[2])
+                if cir.is_call(s) and cir.callee(s) == CLIP and cir.args(s):
+                    return src(cir.args(s)[0])
+                return False
+            if src(t[1]):
+                fam.add(t[0])
+                changed = True
+    return fam
+
+
 def clip_rules(res, pid):
     res.rule("R-MUSTPASS", "PID: the error integral is clipped to ±i_max before any use whenever i_max has a value; the "
              "setpoint is slew-limited to previous ± slew_max*timestep whenever slew_max has a value and a previous "
@@ -346,36 +519,45 @@ def clip_rules(res, pid):
     res.rule("R-SIBLING", "PID: integral expression, guards and clip are identical in all methods that compute it",
              floor=1)
     sib = []
+    covered = set()
     for f in pid.fns("Pid"):
-        sites = _integral_sites(f.node)
+        v = pid.view(f)
+        for x in cxx3.walk_outer(v.fn):
+            if _is_state_member(x, STATE_INTEGRAL):
+                covered.add(x.get("line"))
+        prev = _prev_ids(v.fn)
+        sites = _integral_sites(v.fn, prev)
         if sites:
-            sib.append((f, sites))
+            sib.append((f, v, prev, sites))
     if not sib:
         raise AnalysisError(f"no Pid method computes the error integral (anchor State::{STATE_INTEGRAL} moved)")
+    for f in pid.fns():
+        for x in cir.walk(f.node):
+            if _is_state_member(x, STATE_INTEGRAL) and x.get("line") not in covered:
+                raise AnalysisError(f"State::{STATE_INTEGRAL} is read in {f.key} (line {x.get('line')}), in code that is not "
+                                    f"analysed inside a Pid method (a lambda or helper that could not be followed)")
     helpers = _clip_helpers(pid)
+    res.extra["integral_views"] = {f.key: v.inlined for f, v, _p, _s in sib}
     sigs = {}
-    for f, sites in sib:
-        decls = cxx3.decl_nodes(f.node)
-        vids = {s[0] for s in sites}
-        if len(vids) != 1:
-            raise AnalysisError(f"{f.key}: the error integral lives in several variables")
-        vid = next(iter(vids))
-        clip_arg_ids = set()
-        clip_nodes = []
-        for n in cir.walk(f.node):
-            if cir.is_call(n) and cir.callee(n) == CLIP and cir.args(n) and _var_id(cir.args(n)[0]) == vid:
-                clip_nodes.append(n)
-                for x in cir.walk(cir.args(n)[0]):
-                    clip_arg_ids.add(id(x))
-        for n in cir.walk(f.node):
-            if cir.is_call(n) and cir.callee(n) in helpers:
-                for a in cir.args(n):
-                    if _var_id(a) == vid:
-                        clip_nodes.append(n)
-                        for x in cir.walk(a):
-                            clip_arg_ids.add(id(x))
-        rule = _ClipRule(vid, _lhs_ids(f.node), clip_arg_ids, helpers)
-        ctx = cxx3.xexplore(rule, pid.unit, f.node)
+    for f, v, prev, sites in sib:
+        # calls into the plugin's own code that were not expanded, and calls through callable objects / pointers:
+        # the value cannot be followed through them
+        unfollowed = [c for c, _h in v.residual_targets() if cir.callee(c) not in helpers]
+        unfollowed += [c for c in cxx3.walk_outer(v.fn) if _is_indirect_call(c)]
+        opaque = set()
+        for call in unfollowed:
+            for a in cir.args(call):
+                for x in cir.walk(a):
+                    if x.get("k") == "DeclRefExpr":
+                        opaque.add(id(x))
+        for _vid, _name, rhs, dn in sites:
+            inside = {id(x) for x in cir.walk(rhs)}
+            left = [cir.callee(c) or cir.text(cir.kids(c)[0]) for c in unfollowed if id(c) in inside]
+            if left:
+                raise AnalysisError(f"{f.key}: the stored integral is handed to {left[0]}() (line {dn.get('line')}), which "
+                                    f"could not be analysed inside its caller — cannot decide where the clip happens")
+        rule = _ClipRule(v.fn, helpers, opaque)
+        ctx = cxx3.xexplore(rule, pid.unit, v.fn)
         c = f"{f.key}:integral-clip"
         if rule.bad_bounds:
             ln, tx = rule.bad_bounds[0]
@@ -384,20 +566,32 @@ def clip_rules(res, pid):
             r = ctx.reports[0]
             res.bad("R-MUSTPASS", c, r["file"], r["line"], f"{f.key}: {r['msg']}")
         else:
-            res.ok("R-MUSTPASS", c, {"clips": rule.clips})
-        # sibling signature
-        rhs = sites[0][2]
-        g_raw = [(cxx3.alpha_text(cir.strip(cnd), decls), pol) for cnd, pol in _guards_of(f.node, sites[0][3])]
-        clip_sig = []
-        for cn in clip_nodes:
-            # enclosing assignment of the clip
-            asg = None
-            for n in cir.walk(f.node):
-                if n.get("k") == "BinaryOperator" and n.get("op") == "=" and cir.strip(cir.kids(n)[1]) is cn:
-                    asg = n
-            g = [(cxx3.alpha_text(cir.strip(cnd), decls), pol) for cnd, pol in _guards_of(f.node, asg or cn)]
-            clip_sig.append((tuple(g), cxx3.alpha_text(cn, decls)))
-        sigs[f.key] = {"expr": cxx3.alpha_text(rhs, decls), "guards": tuple(g_raw), "clip": tuple(clip_sig),
+            res.ok("R-MUSTPASS", c, {"clips": rule.clips, "inlined": v.inlined})
+        # sibling signature, on the nested view (early exits folded into if/else): the complete guard of a statement
+        nv = v.nested
+        decls = cxx3.decl_nodes(nv)
+        nsites = _integral_sites(nv, prev)
+        if not nsites:
+            raise AnalysisError(f"{f.key}: the integral computation is lost in the nested view")
+        exprs = sorted({cxx3.alpha_text(s[2], decls) for s in nsites})
+        g_raw = sorted({cxx3.guard_atoms(nv, s[3], decls) or () for s in nsites})
+        fam = _integral_family(nv, {s[0] for s in nsites})
+        clip_sig = set()
+        for cn in cxx3.walk_outer(nv):
+            if not cir.is_call(cn):
+                continue
+            if cir.callee(cn) == CLIP and cir.args(cn):
+                a0 = cir.strip(cir.args(cn)[0])
+                if not ((a0 is not None and a0.get("k") == "DeclRefExpr" and (a0.get("ref") or {}).get("id") in fam)
+                        or _reads_integral(cir.args(cn)[0], prev)):
+                    continue
+            elif cir.callee(cn) in helpers:
+                if not any(_var_id(a) in fam for a in cir.args(cn)):
+                    continue
+            else:
+                continue
+            clip_sig.add((cxx3.guard_atoms(nv, cn, decls) or (), cxx3.alpha_text(cn, decls)))
+        sigs[f.key] = {"expr": tuple(exprs), "guards": tuple(g_raw), "clip": tuple(sorted(clip_sig)),
                        "line": sites[0][3].get("line"), "file": f.file}
     keys = sorted(sigs)
     ref = sigs[keys[0]]
@@ -413,17 +607,27 @@ def clip_rules(res, pid):
         res.bad("R-SIBLING", c, sigs[keys[1]]["file"], sigs[keys[1]]["line"],
                 "the sibling computations of the error integral differ — " + "; ".join(diffs))
     else:
-        res.ok("R-SIBLING", c, {"expr": ref["expr"], "guards": [g for g, _ in ref["guards"]]})
+        res.ok("R-SIBLING", c, {"expr": list(ref["expr"]), "guards": [[g for g, _ in gs] for gs in ref["guards"]]})
     res.count("integral_siblings", len(sib))
 
     # ---- slew limit
-    users = [f for f in pid.fns("Pid") if any(
-        _is_state_member(x, STATE_PREV) for x in cir.walk(f.node)) and not _writes_state(f.node, STATE_PREV)]
+    users = []
+    for f in pid.fns("Pid"):
+        v = pid.view(f)
+        if any(_is_state_member(x, STATE_PREV) for x in cxx3.walk_outer(v.fn)) and not _writes_state(v.fn, STATE_PREV):
+            users.append((f, v))
     if not users:
         raise AnalysisError(f"no Pid method reads State::{STATE_PREV} (anchor moved)")
-    for f in users:
-        rule = _SlewRule(f.node)
-        ctx = cxx3.xexplore(rule, pid.unit, f.node)
+    for f in pid.fns():
+        for x in cir.walk(f.node):
+            if _is_state_member(x, STATE_PREV) and not any(x.get("line") == y.get("line") for g in pid.fns("Pid")
+                                                           for y in cxx3.walk_outer(pid.view(g).fn)
+                                                           if _is_state_member(y, STATE_PREV)):
+                raise AnalysisError(f"State::{STATE_PREV} is used in {f.key} (line {x.get('line')}), in code that is not "
+                                    f"analysed inside a Pid method")
+    for f, v in users:
+        rule = _SlewRule(v)
+        ctx = cxx3.xexplore(rule, pid.unit, v.fn)
         c = f"{f.key}:slew-limit"
         if rule.returns == 0:
             raise AnalysisError(f"{f.key} reads {STATE_PREV} but returns no tracked setpoint")
@@ -447,22 +651,50 @@ def _chain_ends(n, *names):
 
 
 class _SlewRule(cxx3.XRule):
-    """state: (clipped, slew, prev).  The tracked variable is the one the function returns."""
+    """state: (clipped, slew, prev).  The tracked variable is the setpoint the function returns: `return v`, or
+    `return mju_clip(v, lo, hi)` / `return c ? mju_clip(v, lo, hi) : v` (a return of the clipped value is the clip)."""
 
-    def __init__(self, fn):
+    def __init__(self, view):
+        fn = view.fn
         self.fn = fn
+        self.view = view
         self.defs = cxx3.local_defs(fn)
         rv = set()
-        for n in cir.walk(fn):
+        self.other_returns = []
+        for n in cxx3.walk_outer(fn):
             if n.get("k") == "ReturnStmt":
                 c = [x for x in cir.kids(n) if x is not None]
-                if c and _var_id(c[0]):
-                    rv.add(_var_id(c[0]))
+                if not c:
+                    continue
+                vs = self._returned_vars(c[0])
+                if vs is None:
+                    self.other_returns.append(n)
+                else:
+                    rv |= vs
         if len(rv) != 1:
             raise AnalysisError("setpoint function does not return a single local variable")
         self.var = next(iter(rv))
+        for n in self.other_returns:
+            left = [cir.callee(c) or "?" for c, _h in view.residual_targets(n)]
+            if left:
+                raise AnalysisError(f"the setpoint is returned through {left[0]}() (line {n.get('line')}), which could not "
+                                    f"be analysed inside its caller")
         self.returns = 0
         self.clips = 0
+
+    def _returned_vars(self, e):
+        """Variables a return expression yields (possibly through mju_clip / ?:), None for any other expression."""
+        s = cir.strip(e)
+        if s is None:
+            return None
+        if s.get("k") == "DeclRefExpr" and (s.get("ref") or {}).get("k") in ("VarDecl", "ParmVarDecl"):
+            return {(s.get("ref") or {}).get("id")}
+        if s.get("k") == "ConditionalOperator":
+            a, b = self._returned_vars(cir.kids(s)[1]), self._returned_vars(cir.kids(s)[2])
+            return None if a is None or b is None else a | b
+        if cir.is_call(s) and cir.callee(s) == CLIP and len(cir.args(s)) == 3:
+            return self._returned_vars(cir.args(s)[0])
+        return None
 
     def initial(self, fn):
         return (False, None, None)
@@ -487,34 +719,70 @@ class _SlewRule(cxx3.XRule):
         a, b = cir.kids(s)
         if not _is_state_member(cir.strip(a), STATE_PREV):
             return False
-        p = cir.strip(b)
+        p = self._resolve(b)
         if p is None or p.get("k") != "BinaryOperator" or p.get("op") != "*":
             return False
         x, y = cir.kids(p)
 
         def is_slew(e):
-            ch = cxx3.optional_deref(e)
+            ch = cxx3.optional_deref(self._resolve(e))
             return bool(ch) and ch[-1] == CFG_SLEW
 
         def is_dt(e):
-            return _chain_ends(e, "opt", "timestep")
+            return _chain_ends(self._resolve(e), "opt", "timestep")
         return (is_slew(x) and is_dt(y)) or (is_slew(y) and is_dt(x))
 
-    def _rhs(self, st, rhs):
-        b = _is_clip_of(rhs, self.var) if rhs is not None else None
-        if b is not None and self._bound(b[0], "-") and self._bound(b[1], "+"):
-            self.clips += 1
-            return (True, st[1], st[2])
-        return (False, st[1], st[2])
+    def _truth(self, cond, st):
+        """Truth of a condition under the tracked predicates of a state, None if it is not determined by them."""
+        s = cir.strip(cond)
+        if s is None:
+            return None
+        k = s.get("k")
+        if k == "UnaryOperator" and s.get("op") == "!":
+            v = self._truth(cir.kids(s)[0], st)
+            return None if v is None else not v
+        if k == "BinaryOperator" and s.get("op") in ("&&", "||"):
+            a, b = (self._truth(x, st) for x in cir.kids(s))
+            if s["op"] == "&&":
+                return False if (a is False or b is False) else (True if (a and b) else None)
+            return True if (a is True or b is True) else (False if (a is False and b is False) else None)
+        ch = cxx3.optional_test(s)
+        if ch and ch[-1] == CFG_SLEW:
+            return st[1]
+        if _is_state_member(s, STATE_PREV_EXISTS):
+            return st[2]
+        return None
+
+    def _value(self, st, e):
+        """Is the value of `e` the slew-limited setpoint in state st?  True / False; None: `e` is not the setpoint."""
+        s = cir.strip(e)
+        if s is None:
+            return None
+        if s.get("k") == "ConditionalOperator":
+            c, a, b = cir.kids(s)
+            t = self._truth(c, st)
+            if t is not None:
+                return self._value(st, a if t else b)
+            va, vb = self._value(st, a), self._value(st, b)
+            if va is None and vb is None:
+                return None
+            return bool(va) and bool(vb)
+        if _var_id(s) == self.var:
+            return st[0]
+        b = _is_clip_of(s, self.var)
+        if b is not None:
+            if self._bound(b[0], "-") and self._bound(b[1], "+"):
+                self.clips += 1
+                return True
+            return False
+        return None
 
     def assign(self, st, node, ctx):
-        k = node.get("k")
-        if k == "VarDecl" and node.get("id") == self.var:
-            init = [c for c in cir.kids(node) if c is not None]
-            return self._rhs(st, init[-1] if init else None)
-        if k == "BinaryOperator" and node.get("op") == "=" and _var_id(cir.kids(node)[0]) == self.var:
-            return self._rhs(st, cir.kids(node)[1])
-        return st
+        t = _local_target(node)
+        if t is None or t[0] != self.var:
+            return st
+        v = self._value(st, t[1])
+        return (bool(v), st[1], st[2])
 
     def branch(self, st, cond, taken, ctx):
         ch = cxx3.optional_test(cond)
@@ -530,10 +798,11 @@ class _SlewRule(cxx3.XRule):
 
     def ret(self, st, node, ctx):
         c = [x for x in cir.kids(node) if x is not None]
-        if not c or _var_id(c[0]) != self.var:
+        if not c:
             return
         self.returns += 1
-        if not st[0] and st[1] is not False and st[2] is not False:
+        v = self._value(st, c[0])
+        if not v and st[1] is not False and st[2] is not False:
             ctx.report(node, "the setpoint is returned without the slew clip (previous_ctrl ± *slew_max * timestep) on a "
                              "path where slew_max may hold a value and a previous ctrl may exist")
 
@@ -1213,8 +1482,10 @@ def run(res, tier):
     indexdim_rule(res, tus, repo)
     res.explanation = (
         "Static analysis of the PID and cable plugins from clang's typed AST. R-MUSTPASS: all-paths exploration (throw/"
-        "return end a path) with the optional's has_value() as a tracked predicate; the clip must be mju_clip of the "
-        "tracked variable with the structurally matched bounds. R-SIBLING: alpha-normalised expression/guard text. "
+        "return end a path) of the canonical view of each method (TU helper functions and lambdas expanded in place) "
+        "with the optional's has_value() as a tracked predicate; the integral / setpoint is tracked as a value (copies, "
+        "?:, helper results), the clip must be mju_clip of that value with the structurally matched bounds. R-SIBLING: "
+        "alpha-normalised expression/guard text on the nested view. "
         "R-TABLE: guard keys resolved to PidConfig fields through PidConfig::FromModel's attribute map, so the static "
         "slot counter (which reads attributes) and the members (which read config_) are comparable. R-WHO-WRITES: "
         "field-level mod events over the callback closure inside the TU. R-INDEXDIM: row dimensions from the X-macro "
@@ -1322,6 +1593,54 @@ _FIX_HELPER = list(_FIX[:-1]) + [
 ]
 MUTANTS.append({"id": "fix-index-spaces-through-helper", "group": "G", "expect": None,
                 "fixes": [("R-INDEXDIM", "Pid::")], "edits": _FIX_HELPER})
+
+
+# ---- shapes of behaviour-preserving refactorings (controls, group H) and the same shapes hiding a defect (group I)
+_ACTDOT_BLOCK = "      mjtNum integral = state.integral + error * m->opt.timestep;\n" + _ACTDOT_CLIP
+_COMPUTE_BLOCK = "      integral = state.integral + error * m->opt.timestep;\n" + _COMPUTE_CLIP
+_ACTDOT_HEAD = "void Pid::ActDot(const mjModel* m, mjData* d, int instance) const {"
+_INTEGRATE = ("static mjtNum IntegrateError(const PidConfig& config, mjtNum previous_integral,\n"
+              "                             mjtNum error, mjtNum timestep) {\n"
+              "  mjtNum integral = previous_integral + error * timestep;\n%s  return integral;\n}\n\n")
+_INTEGRATE_CLIP = ("  if (config.i_max.has_value()) {\n    integral = mju_clip(integral, -*config.i_max, *config.i_max);\n"
+                   "  }\n")
+_ACTDOT_CALL = ("      mjtNum integral =\n          IntegrateError(config_, state.integral, error, m->opt.timestep);\n"
+                "      d->act_dot[state_idx] = (integral - d->act[state_idx]) / m->opt.timestep;")
+_COMPUTE_CALL = "      integral = IntegrateError(config_, state.integral, error, m->opt.timestep);\n"
+_SLEW = ("  if (config_.slew_max.has_value() && state.previous_ctrl_exists) {\n"
+         "    mjtNum ctrl_min = state.previous_ctrl - *config_.slew_max * m->opt.timestep;\n"
+         "    mjtNum ctrl_max = state.previous_ctrl + *config_.slew_max * m->opt.timestep;\n"
+         "    ctrl = mju_clip(ctrl, ctrl_min, ctrl_max);\n  }\n  return ctrl;\n}")
+_SLEW_EARLY = ("  if (!config_.slew_max.has_value() || !state.previous_ctrl_exists) {\n    return ctrl;\n  }\n"
+               "  mjtNum ctrl_min = state.previous_ctrl - *config_.slew_max * m->opt.timestep;\n"
+               "  mjtNum ctrl_max = state.previous_ctrl + *config_.slew_max * m->opt.timestep;\n"
+               "  return mju_clip(ctrl, ctrl_min, %s);\n}")
+MUTANTS += [
+    # the integral is computed and clipped in a helper in ActDot and by a conditional expression in Compute
+    {"id": "integrate-through-helper-and-ternary", "group": "H", "expect": None,
+     "edits": [(PID_TU, _ACTDOT_HEAD, _INTEGRATE % _INTEGRATE_CLIP + _ACTDOT_HEAD),
+               (PID_TU, _ACTDOT_BLOCK, _ACTDOT_CALL),
+               (PID_TU, _COMPUTE_CLIP,
+                "      integral = config_.i_max.has_value()\n"
+                "                     ? mju_clip(integral, -*config_.i_max, *config_.i_max)\n                     : integral;\n")]},
+    {"id": "slew-early-return-clip-in-return", "group": "H", "expect": None,
+     "edits": [(PID_TU, _SLEW, _SLEW_EARLY % "ctrl_max")]},
+    {"id": "compute-range-for", "group": "H", "expect": None,
+     "edits": [(PID_TU, "  for (int i = 0; i < actuators_.size(); i++) {\n    int actuator_idx = actuators_[i];\n"
+                        "    State state = GetState(m, d, actuator_idx);\n    mjtNum ctrl =\n",
+                "  for (int actuator_idx : actuators_) {\n    State state = GetState(m, d, actuator_idx);\n"
+                "    mjtNum ctrl =\n")]},
+    # both methods integrate through one helper (the D-p11 shape)
+    {"id": "integrate-through-helper-both", "group": "J", "expect": None,
+     "edits": [(PID_TU, _ACTDOT_HEAD, _INTEGRATE % _INTEGRATE_CLIP + _ACTDOT_HEAD),
+               (PID_TU, _ACTDOT_BLOCK, _ACTDOT_CALL), (PID_TU, _COMPUTE_BLOCK, _COMPUTE_CALL)]},
+    # the helper forgets the clip: both callers use the raw integral
+    {"id": "integrate-helper-without-clip", "group": "I", "expect": ("R-MUSTPASS", "Pid::ActDot:integral-clip"),
+     "edits": [(PID_TU, _ACTDOT_HEAD, _INTEGRATE % "" + _ACTDOT_HEAD),
+               (PID_TU, _ACTDOT_BLOCK, _ACTDOT_CALL), (PID_TU, _COMPUTE_BLOCK, _COMPUTE_CALL)]},
+    {"id": "slew-return-clip-wrong-bound", "group": "I", "expect": ("R-MUSTPASS", "Pid::GetCtrl:slew-limit"),
+     "edits": [(PID_TU, _SLEW, _SLEW_EARLY % "ctrl_min")]},
+]
 
 
 def selftest(res):
